@@ -3,6 +3,8 @@ import PhyVerif.Driver.Rat
 import PhyVerif.Model.C16
 import PhyVerif.Model.C16c
 import PhyVerif.Model.C16d
+import PhyVerif.Model.C16e
+import PhyVerif.Spec.C01b
 import PhyVerif.Spec.C16
 namespace PhyVerif.Driver
 open Lean PhyVerif.C16
@@ -40,20 +42,47 @@ def runC16 (op : String) (j : Json) : R Json := do
     pure (Json.mkObj [("model", jList jChunk m), ("model_spec", Json.bool (tileOK n cs m)),
                       ("impl_spec", spec)])
   | "get_chunk_bounds" =>
-    -- with "rate" (exact rational of the float handed to the real reader) instead of "cs": the chunk length
-    -- is the model's `chunkSizeFl rate` (float product, then round); a rate the constructor rejects gives model = null
+    -- the chunk length comes from ONE of
+    --  "cs"                       : given (function level: `_get_chunk_bounds(sizes, cs)`)
+    --  "rate"                     : exact rational of a binary64 rate handed to the real reader: the model's
+    --                               `chunkSizeFl rate` (float product, then round); a rate the constructor rejects gives
+    --                               model = null.  `rate_ok` = `C01.RateOK rate`, the domain on which the float model is
+    --                               the code (the same predicate the C01 check uses)
+    --  "rate" + "prec" (+ "impl_cs"): a NumPy scalar rate of another precision (`Model/C16e.lean`): no model of the
+    --                               chunk length; `env_lo`/`env_hi` = the envelope, and the bounds mechanism is run at
+    --                               the chunk length the real reader exhibits ("impl_cs")
+    -- "impl" = the real bounds, "impl_iters" = lists of intervals the real iterators yielded
     let sizes ← getNats j "sizes"
-    let (csI, extra) ← if hasFld j "rate" then do
+    let (csI, extra) ← if hasFld j "prec" then do
+        let rate ← fld j "rate" >>= asRat
+        let p ← getNat j "prec"
+        let cs ← if hasFld j "impl_cs" then getInt j "impl_cs" else pure 0
+        pure (cs, [("env_lo", jInt (chunkSizeLo p rate)), ("env_hi", jInt (chunkSizeHi p rate))])
+      else if hasFld j "rate" then do
         let rate ← fld j "rate" >>= asRat
         -- `exact_cs` = the exact-rational model; `inrange` = the float product is a normal double or zero
         -- `reader` = the constructor's bounds as ONE model definition (`readerChunkBoundsFl`: chunk length, assert, bounds)
         pure (chunkSizeFl rate, [("exact_cs", jInt (chunkSize rate)),
                                  ("inrange", Json.bool (decide (PhyVerif.Fl.InRange (defaultChunkDuration * rate)))),
+                                 ("rate_ok", Json.bool (decide (PhyVerif.C01.RateOK rate))),
+                                 ("overflow", Json.bool (decide (PhyVerif.Fl.pow2 1024 - PhyVerif.Fl.pow2 970 ≤ defaultChunkDuration * rate))),
+                                 ("env_lo", jInt (chunkSizeLo 53 rate)), ("env_hi", jInt (chunkSizeHi 53 rate)),
                                  ("product_is_double", Json.bool (PhyVerif.Fl.isDoubleB (defaultChunkDuration * rate))),
                                  ("reader", jOpt jNats (readerChunkBoundsFl sizes rate))])
       else do
         let cs ← getNat j "cs"
         pure ((cs : Int), [])
+    -- the clauses that do not mention the chunk length, on the real output: every iterator pass tiles [0, n); the bounds
+    -- go from 0 to n, increase strictly and contain every file boundary (`boundsOK` with the loosest gap, n)
+    let itersTile ← if hasFld j "impl_iters" then do
+        let its ← fld j "impl_iters" >>= asList (asList asPairN)
+        pure (jList (fun iv => Json.bool (intervalsTile sizes.sum iv)) its)
+      else pure Json.null
+    let specNoCs ← if hasFld j "impl" then do
+        let ib ← getNats j "impl"
+        pure (Json.bool (boundsOK sizes sizes.sum ib && intervalsTile sizes.sum (iterChunksBase ib)))
+      else pure Json.null
+    let extra := extra ++ [("impl_iters_tile", itersTile), ("impl_spec_nocs", specNoCs)]
     if csI ≤ 0 then
       pure (Json.mkObj ([("model", Json.null), ("cs", jInt csI)] ++ extra))
     else
@@ -75,6 +104,11 @@ def runC16 (op : String) (j : Json) : R Json := do
         let iv ← fld j "impl" >>= asList asPairN
         pure (Json.bool (intervalsTile n iv))
       else pure Json.null
+    -- further passes over the same reader / passes over derived readers: each must tile [0, n)
+    let itersTile ← if hasFld j "impl_iters" then do
+        let its ← fld j "impl_iters" >>= asList (asList asPairN)
+        pure (jList (fun iv => Json.bool (intervalsTile n iv)) its)
+      else pure Json.null
     -- the chunk table itself: "n" samples compressed with chunk duration "cd" at "rate" (exact rationals);
     -- `table_spec` = the reader clause (0 -> n, strictly increasing, gaps <= chunk length) on the REAL table
     let tbl ← if hasFld j "cd" then do
@@ -88,7 +122,7 @@ def runC16 (op : String) (j : Json) : R Json := do
               ("table_spec", Json.bool (boundsOK [n] cs.toNat b))] ++ ex)
       else pure []
     pure (Json.mkObj ([("model", jList jPairN m), ("model_spec", Json.bool (intervalsTile n m)),
-                      ("impl_spec", spec)] ++ tbl))
+                      ("impl_spec", spec), ("impl_iters_tile", itersTile)] ++ tbl))
   | "chunk_size" =>
     let rate ← fld j "rate" >>= asRat
     -- `exact` = the exact-rational model (`chunkSize`), for the tally of rates on which the float product matters
